@@ -38,6 +38,10 @@ CHECKS = {
                 technique="exhaustive enumeration of interval sequences (content alphabet x timer steps) on the real MessageManager with a virtual clock; observer-derived oracle",
                 text="Every sequence of 2-3 reporting intervals over the content alphabet (0..300 distinct types incl. 63/64/65/127/128/129, repeated types, a 65535 count) and timer steps (TIMING only / TIMING+TRAFFIC) is executed; each TIMING_MESSAGE and each MESSAGE_TRAFFIC report group is compared with what an always-served logger observed in the same interval; ModulePID entries are checked.",
                 note="Trusted: virtual TCP model and clock; only valid destination ids are published (whether refused messages count is unspecified)."),
+    "C02": dict(engine="CLX+MMX", level="model_checking", ref="DESIGN.md 4/C02",
+                technique="explicit-state BFS over the joint client/manager subscription state driven through the real Client API against the real MessageManager, probe publish after every transition",
+                text="All 28 joint subscription states are reached and from each every public subscription operation with every argument shape (lists up to length 3 with duplicates and ALL in every position, the *_all helpers, both context managers with every list) is executed by the real Client; after each a raw publisher sends every type and the arrivals on the wire are compared with the client's reported sets, read_message output, refusal behaviour while subscribed to all, and context restoration.",
+                note="Trusted: virtual TCP model; one client, 3 types + ALL + a never-subscribed type."),
 }
 
 ALL = [f"C{i:02d}" for i in range(1, 20)]
